@@ -237,7 +237,7 @@ CLASSIFIERS = {
 
 def _replay_pure(case):
     from . import multichecks
-    st, obs = __import__("xsmverif.core", fromlist=["x"])._impl_worker(("sync", case, 10))
+    st, obs = __import__("xsmverif.core", fromlist=["x"]).impl_isolated(("sync", case, 10))
     s2, pr = multichecks._pure_worker(case)
     if st != "ok" or s2 != "ok":
         return [{"kind": "pure-api-crash", "detail": f"{st} {s2}"}]
